@@ -664,7 +664,7 @@ fn productive(s: &J, env: &HashMap<String, J>, seen: &mut Vec<String>) -> bool {
 pub fn well_formed_r(s: &J) -> bool {
     let mut env = HashMap::new();
     defs_of(s, &mut env);
-    if !productive(s, &env, &mut vec![]) {
+    if !productive(s, &env, &mut vec![]) || !env.values().all(|d| productive(d, &env, &mut vec![])) {
         return false;
     }
     let mut refs = HashSet::new();
@@ -815,5 +815,14 @@ pub fn verdict(w: &Schema, r: &Schema, mutual: bool) -> J {
         Ok(Ok(Compatibility::Partial)) => json!({"vd":"Partial","panic":false,"why":""}),
         Ok(Err(e)) => json!({"vd":"Err","panic":false,"why":clip(e.to_string().split_whitespace().collect::<Vec<_>>().join(" "))}),
         Err(p) => json!({"vd":"Err","panic":true,"why":clip(p)}),
+    }
+}
+
+/// nesting depth of a JSON document (serde_json refuses to parse beyond 128 levels)
+pub fn json_depth(j: &J) -> usize {
+    match j {
+        J::Array(a) => 1 + a.iter().map(json_depth).max().unwrap_or(0),
+        J::Object(o) => 1 + o.values().map(json_depth).max().unwrap_or(0),
+        _ => 0,
     }
 }
